@@ -68,6 +68,9 @@ def payloads(secret_path):
         'dtd-public': '<!DOCTYPE r PUBLIC "-//X//Y" "file://%s"><r><a>t</a></r>' % secret_path,
         'big-prolog': big + '<!DOCTYPE r [<!ENTITY e "%s">]><r><a>&e;</a></r>' % SECRET_MARK,
         'big-prolog-clean': big + '<r><a>text</a></r>',
+        # the first start tag lies beyond the 64 KiB replay buffer of non-seekable streams and the body is long and numbered:
+        # bytes lost by a wrong rewind change the tree
+        'big-prolog-body': big + '<r>' + ''.join('<a>%05d</a>' % i for i in range(4000)) + '</r>',
     }
     out = {k: v.encode('utf-8') for k, v in P.items()}
     out['bom-internal'] = b'\xef\xbb\xbf' + out['internal']
@@ -288,7 +291,8 @@ def evaluate(ctx, cases):
         if o['secret_opened']:
             problems.append('the external identifier was opened (%s, %s, defuse=%s)' % (c['payload'], c['kind'], c['mode']))
         if not has_decl:
-            if o['result'] != 'parsed' and c['role'] == 'instance' and c['payload'] == 'big-prolog-clean' \
+            if o['result'] == 'other-library:XMLResourceOSError' and c['role'] == 'instance' \
+                    and c['payload'] in ('big-prolog-clean', 'big-prolog-body') \
                     and c['kind'] in ('raw-noseek', 'buffered-noseek') and defused:
                 ctx.known_finding('F-C13a')
             elif o['result'] != 'parsed' and c['role'] == 'instance':
@@ -316,14 +320,14 @@ def gen(ctx):
             for l in locs:
                 for p in pls:
                     for role in ('instance', 'main-schema', 'included-schema'):
-                        if role != 'instance' and (k not in ('text', 'path', 'bytes') or p in ('utf16-clean', 'big-prolog-clean')):
+                        if role != 'instance' and (k not in ('text', 'path', 'bytes') or p in ('utf16-clean', 'big-prolog-clean', 'big-prolog-body')):
                             continue
                         cases.append({'mode': m, 'kind': k, 'locality': l, 'payload': p, 'role': role})
     for m in modes:
         for k in ('path', 'file-url'):
             for l in locs:
                 for p in pls:
-                    if p not in ('utf16-clean', 'big-prolog-clean', 'big-prolog'):
+                    if p not in ('utf16-clean', 'big-prolog-clean', 'big-prolog', 'big-prolog-body'):
                         cases.append({'mode': m, 'kind': k, 'locality': l, 'payload': p, 'role': 'reopened-instance'})
     if ctx.quick():
         cases = [c for c in cases if c['role'] == 'instance' or c['payload'] in ('internal', 'dtd-system', 'clean', 'parameter')]
